@@ -106,10 +106,7 @@ def handleGeom (op : Str) (args : List Str) : Option String :=
         let prev := if prevIdx == cs!"-1" then none else known[Num.digitsToNat prevIdx]?
         let ctx : Ctx := { elems := elems, prev := prev }
         let e := decodeElem el
-        let r := do
-          let e ← e.resolvePosition ctx
-          let e ← e.transmuteDxDy
-          e.resolvePosition ctx
+        let r := e.process ctx
         some (match r with
           | .ok e => joinFields [cs!"ok", encodeElem e]
           | .error er => errLine er)
@@ -123,10 +120,7 @@ def handleGeom (op : Str) (args : List Str) : Option String :=
       let (ctx, outs, failed) := st
       if failed then st
       else
-        let r := do
-          let e ← e.resolvePosition ctx
-          let e ← e.transmuteDxDy
-          e.resolvePosition ctx
+        let r := e.process ctx
         match r with
         | .error er => (ctx, outs ++ [cs!"err:" ++ er.name.toList], true)
         | .ok e' =>
